@@ -74,9 +74,27 @@ func (bb *DefaultBallotBroadcaster) set(bl base.Ballot) error {
 		return nil
 	}
 
-	if _, err := bb.pool.SetBallot(bl); err != nil {
+	switch added, err := bb.pool.SetBallot(bl); {
+	case err != nil:
 		return errors.WithMessage(err, "set ballot to pool")
+	case added:
+		return nil
 	}
 
-	return nil
+	// NOTE the other ballot for the same stage point is already in pool; only
+	// the ballot, which has same fact can be broadcasted again.
+	switch prev, found, err := bb.pool.Ballot(
+		bl.Point().Point,
+		bl.Point().Stage(),
+		isaac.IsSuffrageConfirmBallotFact(bl.SignFact().Fact()),
+	); {
+	case err != nil:
+		return errors.WithMessage(err, "get ballot from pool")
+	case !found:
+		return nil
+	case !prev.SignFact().Fact().Hash().Equal(bl.SignFact().Fact().Hash()):
+		return errors.Errorf("different ballot already broadcasted for same stage point")
+	default:
+		return nil
+	}
 }
